@@ -93,3 +93,30 @@ int pushes_for_rules_ok(YR_COMPILER* compiler, void* sc, const char* prefix, YR_
   }
   return 0;
 }
+
+/* R5.4: the pool dedup table keyed by a digest instead of the data */
+unsigned yr_hash_table_lookup_uint32_raw_key(void* t, const void* k, unsigned long kl, const char* ns);
+int yr_hash_table_add_uint32_raw_key(void* t, const void* k, unsigned long kl, const char* ns, unsigned v);
+int yr_arena_write_data(void* arena, int buf, const void* data, unsigned long len, void* ref);
+unsigned yr_hash(unsigned seed, const void* d, unsigned long n);
+int store_data_bad(void* arena, void* table, const void* data, unsigned long len, unsigned* ref)
+{
+  unsigned key[2] = {(unsigned) len, yr_hash(0, data, len)};
+  unsigned off = yr_hash_table_lookup_uint32_raw_key(table, key, sizeof(key), 0);
+  if (off == 0xffffffff)
+  {
+    yr_arena_write_data(arena, 1, data, len, ref);
+    yr_hash_table_add_uint32_raw_key(table, key, sizeof(key), 0, *ref);
+  }
+  return 0;
+}
+int store_data_good(void* arena, void* table, const void* data, unsigned long len, unsigned* ref)
+{
+  unsigned off = yr_hash_table_lookup_uint32_raw_key(table, data, len, 0);
+  if (off == 0xffffffff)
+  {
+    yr_arena_write_data(arena, 1, data, len, ref);
+    yr_hash_table_add_uint32_raw_key(table, data, len, 0, *ref);
+  }
+  return 0;
+}
